@@ -92,6 +92,40 @@ func H_C04_msg(t, w, hcap, ccap int) {
 	vReach("end")
 }
 
+// H_C04_msg_at: a message with Content-Length / body starting at offset k of
+// a longer buffer, one symbolic cut, symbolic flags: offsets stay inside the
+// buffer that was actually passed, no panic.
+func H_C04_msg_at(t, w, k int) {
+	junk := vBytes(2)
+	text := vTpl(t, w)
+	buf := vPad(k, junk, text)
+	n := len(buf)
+	var m PSIPMsg
+	m.Init(nil, nil, nil)
+	flags := vU8() & 7
+	cut := k + 1 + vChoice(n-k)
+	if cut > n {
+		cut = n
+	}
+	// the slice has no spare capacity: reading past cut would panic
+	part := buf[:cut:cut]
+	o, e := ParseSIPMsg(part, k, &m, flags)
+	vAssert("offset-inside-buffer", o >= 0 && o <= cut)
+	if e == 0 {
+		vAssert("body-inside-buffer", fieldOK(m.Body, cut) && len(m.Buf) <= cut)
+	}
+	if e == ErrHdrMoreBytes && cut < n {
+		o, e = ParseSIPMsg(buf, o, &m, flags)
+		vAssert("offset-inside-buffer", o >= 0 && o <= n)
+		if e == 0 {
+			vAssert("body-inside-buffer", fieldOK(m.Body, n) && len(m.Buf) <= n)
+		}
+	}
+	vObs("o", o)
+	vObs("e", int(e))
+	vReach("end")
+}
+
 // H_C04_lookup: lookups on every name including the empty one; error and
 // enum stringers total.
 func H_C04_lookup(n int) {
